@@ -624,6 +624,9 @@ def _corpus(tier: str):
         ("OBJ with two arguments", b"(cdecimal\nDecimal\nS'1.5'\nK\x02o."),
         ("NEWOBJ_EX with keyword names that are a reserved word / not NFKC-normal / ordinary", b"\x80\x04ccollections\nOrderedDict\n)}(\x8c\x05classK\x01\x8c\x06\xef\xac\x81eldK\x02\x8c\x01xK\x03u\x92."),
         ("os.system by INST (protocol 0)", b"(S'id'\nios\nsystem\n."),
+        ("OBJ inside an enclosing MARK (the arguments end at the innermost mark)", b"(K\x01(cdecimal\nDecimal\nS'2'\nS'3'\not."),
+        ("INST inside an enclosing MARK", b"(K\x01(S'2'\nidecimal\nDecimal\nt."),
+        ("empty batches: MARK SETITEMS, MARK APPENDS, MARK ADDITEMS", b"\x80\x04}(u](e\x8f(\x90\x87."),
     ]
     # extension codes (copyreg): registered on the specification's side so that the reference reader resolves them
     _register_extensions()
